@@ -21,9 +21,17 @@ CHECKS = {
  "C05": (True, "runtime oracle: real searches on disconnected/restricted networks vs BFS/Dijkstra reachability over permitted edges",
          "Runs Dijkstra/A* (any weight factor), both orientations and directions, with and without destination, on networks with several blocks and edge-local restrictions; Ok/NoPath must match reference reachability, destination-less trees must equal the reachable set with least-cost labels.",
          "reference BFS/Dijkstra in the harness; origin/destination edges drawn from the permitted set", "3.5"),
+
+ "C06": (True, "history + reference-model monitor: batch responses as a multiset vs every query run alone, across parallelism/order/seeded delay injection at hook events; distinct completion orders recorded",
+         "Builds applications from generated TOML, runs every query alone (parallelism 1) and then the same batch under random parallelism overrides, permutations and seeded yields/sleeps injected at QueryStart/QueryEnd/BeforeWrite hook events; the multiset of (qid, error text, route, cost, final state) must equal the alone results, counts must equal the expansion product, run() must return Ok and load balancing must partition the queries.",
+         "reference = same application, query alone; schedule reach = native stress + delay injection (observed interleavings reported); thorough adds ThreadSanitizer and Miri layers", "3.6"),
  "C07": (True, "runtime oracle: real CostModel / EdgeTraversal on sampled configurations and state pairs vs independent closed formula; live relaxations watched through hooks in the search monitors",
          "Calls the real cost model (traversal/access/estimate) and EdgeTraversal::forward/reverse_traversal on sampled weight/rate/surcharge/aggregation setups and finite state pairs incl. zero and negative deltas; positivity, the sum formula, linearity in the weights and zero-weight neutrality are asserted per call.",
          "closed formula written in the harness; surcharges weighted by their feature weight; magnitudes bounded (|state|<=1e6)", "3.7"),
+
+ "C08": (True, "runtime oracle: real energy traversal model (built through the real builder over the bundled models) on sampled edge sequences vs the monitor's own copy of the prediction model and exact charge arithmetic",
+         "Builds energy traversal models through the real JSON builder for ICE/BEV/PHEV over the bundled models in every unit configuration, drives sampled edge sequences that clamp the battery and switch PHEV modes, and checks per edge energy (rate band x adjustment x length), single energy source, charge arithmetic and range, the best-case estimate and starting-charge validation.",
+         "monitor's copy of the same model is ground truth for the rate; 0.1 % speed band because speed is reconstructed through the unit table", "3.8"),
  "C09": (True, "runtime oracle over all unit pairs/triples (exhaustive pairs, sampled magnitudes) vs independent SI table",
          "Runs the real *Unit::convert and Time/Speed/Energy::create on every ordered unit pair and unit triple with sampled magnitudes; an independent SI table and algebraic identities decide. Exhaustive in the unit dimension, sampled in magnitude.",
          "trusts the SI factors written in the harness and f64 arithmetic; energy units only get identity/linearity/round-trip", "3.9"),
@@ -35,10 +43,18 @@ CHECKS = {
          "Drives the real CompactOrderedHashMap and StateModel through sampled construction/extension/insert/overwrite histories and named get/set/add sequences; an insertion-ordered Vec reference and slot-isolation assertions decide after every step.",
          "reference map semantics (first position, last value); private IndexedEntry fields read via Debug", "3.11"),
 
+
+ "C12": (True, "fault-input monitor in subprocesses: structurally mutated batches under RLIMIT_AS with per-query logical step budgets enforced through hook events; panic / death / Err / unanswered / non-error checks",
+         "Worker subprocesses (6 GiB address-space cap) build applications over plugin/algorithm/traversal/output configurations and run empty, single and mutated batches (24 mutation classes); a panic, a process death, an exceeded step budget, an Err from run(), an unanswered query, a response without request, or an ill-formed query answered without error is a violation; untouched valid queries must be answered as when alone.",
+         "worker stall >5 min is inconclusive, never a violation; 'must error' asserted only for unambiguous mutations", "3.12"),
  "C13": (True, "runtime oracle under logical loop budgets (KspOuter/KspInner hook events): count, optimality, validity, distinctness, similarity, accept-all comparison, reachability",
          "Runs both k-shortest-path algorithms on sampled networks and configurations under logical step budgets; route count, first-route optimality, walk/loop/accumulation validity, pairwise distinctness and similarity, accept-all >= threshold counts, and error-vs-reachability are asserted per call.",
          "budgets 4-8x the legitimate loop bounds; optimality only for admissible underlying searches", "3.13"),
 
+
+ "C14": (True, "runtime oracle: real interpolated speed/grade models over the bundled random forests vs the underlying model evaluated at the grid points; generic interpolators vs multilinear functions and each other",
+         "Builds the real interpolated model over all four bundled models on sampled grids and queries it at interior, grid, boundary, +-ulp and outside points in all input units; values must lie within the surrounding underlying-model values, equal them at grid points, be continuous across borders and clamp outside. Generic 1/2/3/N-D interpolators must reproduce multilinear functions, agree with each other and reject outside points.",
+         "grid axes from the repo's linspace; underlying smartcore model is ground truth", "3.14"),
  "C15": (True, "runtime oracle: generated CSV file sets loaded by the real Graph::from_files / CompassApp::try_from and read back through every accessor vs the generator's lists; per-edge tables checked behaviourally",
          "Writes sampled edge/vertex file sets (plain/gzip, column layouts, counts explicit/scanned), loads them through the real loaders and compares every accessor (edges, adjacency in both views at every degree, triplets, coordinates, bindings) with the generator's lists; speed/heading/road-class rows are checked through the models the application builds from them.",
          "ids equal row indices; gzip files named .gz", "3.15"),
@@ -52,6 +68,10 @@ CHECKS = {
          "Executes the real component analysis on every digraph with <=4 vertices (thorough: also all loop-free 5-vertex digraphs) and on sampled larger graphs; a reference mutual-reachability partition decides.",
          "reference closure/Tarjan implementation in the harness; deep chains run with an enlarged stack", "3.18"),
 
+
+ "C19": (True, "offline checker over the output file (history): file parsed by serde_json / csv vs the same batch run without a sink, across parallelism, flush rates, appending runs and delay injection; writer switches recorded from SinkLocked events",
+         "Runs batches through applications with NDJSON or CSV file sinks (random mappings, sorted/unsorted headers, flush rates, both persistence policies, combined sinks, per-run policies, 1..3 appending runs, large records) under shuffled order, parallelism 1..32 and seeded delays; the parsed file must be a bijection with the responses that reach the sink, cells must equal the mapping applied to the response, and the returned responses must keep every field of the sink-less run.",
+         "reference = same batch without sink; numbers compared at 1e-12 (text round trip); lock discipline is evidence only; thorough adds ThreadSanitizer and Miri layers", "3.19"),
  "C20": (True, "runtime oracle: real search results rendered by the real TraversalPlugin (5 formats x route/tree), Summary and UUID plugins and CompassApp::run; WKT/WKB decoded and compared with the generator's geometry table",
          "Real routes and trees are rendered in all five formats by the real output plugins and by the application; each rendering is decoded and compared with the SearchAppResult it was given and with the generator's geometry/identifier tables, including truncated geometry tables that must produce errors.",
          "wkt/wkb/serde_json crates used as decoders; state vector slot order normalised when comparing two builds", "3.20"),
